@@ -21,7 +21,7 @@ import (
 	"github.com/EliCDavis/vector/vector3"
 )
 
-var moreOpNames = []string{"scalealongnormal", "scale2d", "normalize2d", "copyattr", "crop", "cropnode", "alongnormalnode", "translatenode", "rotatenode", "scalenode"}
+var moreOpNames = []string{"scalealongnormal", "scale2d", "normalize2d", "copyattr", "crop", "cropnode", "alongnormalnode", "translatenode", "rotatenode", "scalenode", "vertexcolorspace", "vertexcolorspacet"}
 
 func (c *Ctx) pickV2Attr(m modeling.Mesh) string {
 	names := m.Float2Attributes()
@@ -273,6 +273,23 @@ func (c *Ctx) applyMore(name string, m modeling.Mesh) (opRun, bool) {
 			}
 			return one(out)
 		}), true
+	case "vertexcolorspace", "vertexcolorspacet":
+		// VertexColorSpace / its Transformer; transformation 0 = sRGB->linear, 1 = linear->sRGB, 7 = a value outside the enum
+		// (the switch has no default: the result array stays all-zero)
+		attr := c.pickV3Attr(m)
+		mode := []int{0, 1, 0, 1, 7}[c.Rng.Intn(5)]
+		if mode == 7 {
+			c.Note("colorspace:enum-out-of-range")
+		}
+		skip := c.Rng.Intn(2)
+		if name == "vertexcolorspace" {
+			return runOp(name, fmt.Sprintf("%s %d %s", attr, mode, ms), false, func() []modeling.Mesh {
+				return one(meshops.VertexColorSpace(m, attr, meshops.VertexColorSpaceTransformation(mode)))
+			}), true
+		}
+		return runOp(name, fmt.Sprintf("%s %d %d %s", attr, skip, mode, ms), false, func() []modeling.Mesh {
+			return tr(meshops.VertexColorSpaceTransformer{Attribute: attr, SkipOnMissingAttribute: skip == 1, Transformation: meshops.VertexColorSpaceTransformation(mode)}, m)
+		}), true
 	default: // crop, with the boundary boxes of applyOp
 		return c.applyOp("crop", m), true
 	}
@@ -287,6 +304,29 @@ func (c *Ctx) moreStart(name string) modeling.Mesh {
 			return c.startMesh()
 		}
 		return c.genMesh(meshGen{topo: []modeling.Topology{modeling.PointTopology}, needPos: c.Rng.Intn(6) != 0, maxVerts: 20, materials: true})
+	case "vertexcolorspace", "vertexcolorspacet":
+		// colours in [0, 1] on both sides of the two thresholds (0.04045, 0.0031308), a few out of gamut / negative (pow -> NaN)
+		m := c.genMesh(meshGen{topo: topoAll, needPos: c.Rng.Intn(2) == 0, maxVerts: 20, materials: true})
+		if n := m.AttributeLength(); n > 0 && c.Rng.Intn(5) != 0 {
+			d := make([]vector3.Float64, n)
+			comp := func() float64 {
+				switch c.Rng.Intn(8) {
+				case 0:
+					return c.Rng.Float64() * 0.05
+				case 1:
+					return c.Rng.Float64() * 0.004
+				case 2:
+					return []float64{0, 1, 0.04045, 0.0031308, -0.25, 2.5}[c.Rng.Intn(6)]
+				default:
+					return c.Rng.Float64()
+				}
+			}
+			for i := range d {
+				d[i] = vector3.New(comp(), comp(), comp())
+			}
+			m = m.SetFloat3Attribute(modeling.ColorAttribute, d)
+		}
+		return m
 	case "translatenode", "rotatenode", "scalenode":
 		return c.genMesh(meshGen{topo: topoAll, needPos: c.Rng.Intn(5) != 0, maxVerts: 20, materials: true})
 	case "alongnormalnode":
